@@ -150,6 +150,7 @@ INDEX = {
  "C27": {"package": "./encoding/proto", "harnesses": [
    {"name": "VerifH27Messages", "common": {"max_depth": 3000}, "quick": {"bounds": {"strlen": 1, "slice": 1, "types": 12, "intclasses": 2}}, "thorough": {"bounds": {"strlen": 1, "slice": 2, "types": 12, "intclasses": 3}}},
    {"name": "VerifH27Garbage", "common": {"max_depth": 3000}, "quick": {"bounds": {"len": 4, "targets": 14}}, "thorough": {"bounds": {"len": 6, "targets": 14}}},
+   {"name": "VerifH27Envelope", "package": ".", "common": {"max_depth": 3000}, "quick": {"bounds": {}}},
  ]},
  "C28": {"package": ".", "harnesses": [
    {"name": "VerifH28WritePaths", "thorough_ok": True, "common": {"max_depth": 3000}, "quick": {"bounds": {"bits": 2, "rows": 2, "colhis": 1, "caches": 2}}, "thorough": {"bounds": {"bits": 2, "rows": 3, "colhis": 2, "caches": 3}}},
